@@ -191,6 +191,19 @@ static void run_fork(FILE *o, const char *proto)
       if (a3) xcm_close(a3);
       if (c3 && up) { for (int i = 0; i < 3000; i++) { int rc = xcm_receive(c3, b3, sizeof(b3)); if (rc == 0 || (rc < 0 && errno != EAGAIN)) { dead = c3; break; } usleep(200); } }
       if (c3 && !dead) xcm_close(c3); }
+    /* control clients attached to every control socket of this process, and accepted by the owners */
+    int cc[16], ncc = 0;
+    { char mine[64]; snprintf(mine, sizeof(mine), "ctl-%d-", (int)getpid());
+      DIR *d = opendir(ctl_dir);
+      for (struct dirent *e; d && (e = readdir(d)) && ncc < 16;) if (!strncmp(e->d_name, mine, strlen(mine))) {
+	  struct sockaddr_un a = { .sun_family = AF_UNIX }; snprintf(a.sun_path, sizeof(a.sun_path), "%.300s/%.60s", ctl_dir, e->d_name);
+	  int fd = __real_socket(AF_UNIX, SOCK_SEQPACKET | SOCK_NONBLOCK, 0);
+	  if (__real_connect(fd, (struct sockaddr *)&a, sizeof(a)) == 0) cc[ncc++] = fd; else __real_close(fd);
+      }
+      if (d) closedir(d);
+      char b4[8];
+      for (int k = 0; k < 40; k++) { xcm_finish(t.client); xcm_receive(t.client, b4, sizeof(b4)); xcm_finish(t.accepted); xcm_receive(t.accepted, b4, sizeof(b4));
+	  struct xcm_socket *a2 = xcm_accept(t.server); if (a2) xcm_close(a2); if (dead) xcm_receive(dead, b4, sizeof(b4)); } }
     struct xcm_socket *own[5] = { t.client, t.accepted, t.server, dead, pend };
     char sig0[5][600], sig1[5][600];
     for (int i = 0; i < 5; i++) { sig0[i][0] = 0; if (own[i]) epoll_sig(xcm_fd(own[i]), sig0[i], sizeof(sig0[i])); }
@@ -240,7 +253,8 @@ static void run_fork(FILE *o, const char *proto)
 	waited = now() - t0;
 	xcm_close(pend);
     }
-    fprintf(o, "child_ok=%d c2s=%d s2c=%d file_ok=%d ctl=%d/%d accepts_again=%d pending=%s waited=%.2f epoll_same=%d dead_signalled=%d\n", child_ok, c2s, s2c, file_ok, ctl_before, ctl_after, again, pend_st, waited, epoll_same, dead_signalled);
+    fprintf(o, "child_ok=%d c2s=%d s2c=%d file_ok=%d ctl=%d/%d accepts_again=%d pending=%s waited=%.2f epoll_same=%d dead_signalled=%d ctl_clients=%d\n", child_ok, c2s, s2c, file_ok, ctl_before, ctl_after, again, pend_st, waited, epoll_same, dead_signalled, ncc);
+    for (int i = 0; i < ncc; i++) __real_close(cc[i]);
     if (dead) xcm_close(dead);
     sys_close_trio(&t);
     if (bl >= 0) { __real_close(bl); for (int i = 0; i < 4; i++) __real_close(fill[i]); }
